@@ -330,7 +330,7 @@ DEFAULTS = dict(
     nn=dict(hidden_layer_sizes=(6,), max_iter=60), periodic=None, blob='none', vectorized=False,
     prior='identity', pool_l=0, pool_s=0, discard=False, seed=1, f_live=0.05, n_shell=1,
     n_eff=150, file=True, enlarge_per_dim=1.1, n_points_min=6, n_like_new_bound=None,
-    split_threshold=100, verbose=False, want=None, ext='.h5', pathlib=False)
+    split_threshold=100, verbose=False, want=None, want_unmet=None, ext='.h5', pathlib=False)
 
 
 class Scenario(dict):
@@ -412,7 +412,8 @@ class Scenario(dict):
     def resolve(self):
         """coverage-directed choice of the seed: for scenarios that `want` a rare event on their default
         path (an empty shell removed at the end of exploration) the seeds seed, seed+1, ... are tried
-        until the event occurs (deterministic; at most 10 tries, else Inconclusive)"""
+        until the event occurs (deterministic; at most 10 tries, else the base seed is used and the
+        evidence says that the event was not met)"""
         if not self['want']:
             return self
         on = LOG['on']
@@ -431,8 +432,12 @@ class Scenario(dict):
                 if self['want'] == 'removed' and len(s.bounds) < mx:
                     self['want'] = None
                     return self
-            raise core.Inconclusive('no seed with event {} for scenario {}'.format(
-                self['want'], self.name))
+            # the event is rare for this configuration and seed range: the scenario is still a valid
+            # one (it merely lacks the event); recorded in the evidence, never an error
+            self['seed'] = base
+            self['want_unmet'] = self['want']
+            self['want'] = None
+            return self
         finally:
             LOG['on'] = on
 
